@@ -1198,7 +1198,15 @@ impl Vm {
         self.active_fiber_mut().close_upvalues_for_frame();
 
         let prev_stack_size = self.active_fiber().current_frame().unwrap().slot_base;
-        self.active_fiber_mut().frames.pop();
+        let returning = self.active_fiber_mut().frames.pop();
+        // A throw site recorded in the function that is returning (a `return` in its finally
+        // block replaced the exception) must not be reported for a later, unrelated error.
+        let recorded_site = self.active_fiber().error_ip;
+        if let (Some(frame), Some(site)) = (returning, recorded_site) {
+            if frame.closure.function.chunk.code.as_ptr_range().contains(&site) {
+                self.active_fiber_mut().error_ip = None;
+            }
+        }
         // Handlers registered by the frame that has just been removed must not outlive it.
         let frame_count = self.active_fiber().frames.len();
         self.active_fiber_mut()
